@@ -705,7 +705,7 @@ for S in ("short_norm", "short_raw", "long_norm", "long_raw"):
       cap=(600, 1800), cost=200, mem=12, unwindset=[("@memcmp.0", 70)], shape="BMC",
       bound="is_valid / full_eq on ARBITRARY bit patterns of the %s type (full size)" % S,
       enc=["FuzzyHashData::is_valid", "full_eq", "verify_block_hash_input"])
-for nm, tiers in [("c11_constructors_ok_short_norm_m12", ("quick", "thorough")), ("c11_constructors_ok_long_raw_m12", ("thorough",)),
+for nm, tiers in [("c11_constructors_ok_short_norm_m12", ("thorough",)), ("c11_constructors_ok_long_raw_m12", ("thorough",)),
                   ("c11_constructors_ok_short_raw_full", ("thorough",)), ("c11_constructors_ok_long_norm_full", ("thorough",))]:
     K(nm, "C11", M_HASH, cfg="release", tiers=tiers, cap=(900, 2400), cost=400, mem=12, shape="BMC",
       unwindset=alg_rules(n_verify=14) if nm.endswith("m12") else None,
@@ -717,8 +717,8 @@ for nm in ("c11_ooc_new_from_internals_short_norm", "c11_ooc_new_from_internals_
            "c11_ooc_internals_raw_long_raw"):
     for cfg in ("release", "default"):
         K(nm + ("" if cfg == "release" else "_dbg"), "C11", M_HASH, fn=nm, cfg=cfg,
-          tiers=("quick", "thorough") if ("short" in nm) else ("thorough",),
-          cap=(600, 1800), cost=150, mem=12, only_tag="VERIF_TAG", shape="BMC",
+          tiers=("quick", "thorough") if ("short" in nm and "internals_raw" not in nm) else ("thorough",),
+          cap=(600, 2400), cost=150, mem=12, only_tag="VERIF_TAG", shape="BMC",
           unwindset=alg_rules(n_verify=8) if "internals_raw" not in nm else None,
           bound="ANY arguments (<= 6 symbols per block hash, any block size): if the constructor returns, the object is valid",
           enc=[nm.replace("c11_ooc_", "").rsplit("_", 2)[0]],
@@ -726,12 +726,13 @@ for nm in ("c11_ooc_new_from_internals_short_norm", "c11_ooc_new_from_internals_
                        "debug assertions %s" % ("off" if cfg == "release" else "on")])
 for nm in ("c11_dual_ooc_short", "c11_dual_ooc_near_raw_short"):
     for cfg in ("release", "default"):
-        K(nm + ("" if cfg == "release" else "_dbg"), "C11", M_DUAL, fn=nm, cfg=cfg, cap=(900, 2400), cost=400, mem=12,
+        K(nm + ("" if cfg == "release" else "_dbg"), "C11", M_DUAL, fn=nm, cfg=cfg, tiers=("thorough",), cap=(900, 3600), cost=2000, mem=14,
           only_tag="VERIF_TAG", unwindset=dual_rules(n_in=8, n_rle=17), shape="BMC",
           bound="ANY arguments (<= 6 symbols per block hash): if the dual constructor returns, the object is valid",
           enc=["FuzzyHashDualData::new_from_internals", "new_from_internals_near_raw"],
           assumptions=["panics are the documented behaviour (ignored)"])
-K("c11_dual_is_valid_total", "C11", M_DUAL, cfg="release", cap=(900, 2400), cost=300, mem=12, shape="BMC",
+K("c11_dual_is_valid_total", "C11", M_DUAL, cfg="release", tiers=("thorough",), cap=(900, 3600), cost=2000, mem=14, shape="BMC",
+  unwindset=dual_rules(n_rle=17),
   bound="FuzzyHashDualData::is_valid / is_normalized on ARBITRARY bit patterns (short type): no panic",
   enc=["FuzzyHashDualData::is_valid", "is_valid_rle_block_for_block_hash", "is_normalized"])
 K("c11_target_total", "C11", M_CMP, cfg="release", cap=(900, 2400), cost=300, mem=12, unwindset=[("@memcmp.0", 520)],
@@ -1073,7 +1074,11 @@ K("c02_reused_target_init_m6", "C02", M_CMP, fn="c17_target_init_short_m6", cfg=
   enc=["FuzzyHashCompareTarget::init_from", "From<&FuzzyHashData>"], assumptions=[ASSUME_SYM])
 
 # aliases: queries that decide the part of another property naming the same behaviour
-K("c11_dual_reused_destination_m4", "C11", M_DUAL, fn="c07_object_build_short_m4", cfg="release", cap=(900, 2400), cost=400, mem=14,
+K("c11_dual_compress_dirty_outputs_b6", "C11", M_DUAL, fn="c07_kernel32_b6", cfg="release", cap=(900, 2400), cost=300, mem=12,
+  unwindset=dual_rules(n_in=7, n_rle=9), shape="inductive step",
+  bound="compress into ARBITRARY (previously used) output buffers leaves a canonical, valid (normalized part, RLE block); raw length <= 6",
+  enc=["compress_block_hash_with_rle::<32,8>", "is_valid_rle_block_for_block_hash"], assumptions=[ASSUME_SYM])
+K("c11_dual_reused_destination_m4", "C11", M_DUAL, fn="c07_object_build_short_m4", cfg="release", tiers=("thorough",), cap=(900, 3600), cost=900, mem=14,
   unwindset=dual_rules(n_in=5, n_rle=17) + alg_rules(n_norm=5, n_verify=6), shape="inductive step",
   bound="init_from_raw_form into an ARBITRARY (previously used) dual object gives the same valid object as a fresh build; <= 4 symbols",
   enc=["FuzzyHashDualData::init_from_raw_form", "compress_block_hash_with_rle", "is_valid"], assumptions=[ASSUME_SYM])
@@ -1098,8 +1103,8 @@ K("c08_ed_long_a_short_b_q", "C08", M_PA, fn="c08_ed_long_a_short_b", cfg="relea
 
 K("c04_dual_capacity_bh2_short_tail", "C04", M_DUAL, cfg="release", cap=(900, 2400), cost=400, mem=14,
   unwindset=alg_rules(n_text=42, n_verify=42) + dual_rules(n_in=42, n_rle=17), shape="BMC",
-  bound="dual parser, capacity class: '3::' + 29 run-free symbols + every byte string of <= 8 bytes (block hash 2 reaches and "
-        "exceeds 32 symbols raw, with runs that collapse)",
+  bound="dual parser, capacity class: '3::' + 29 fixed pairwise different symbols + every byte string of <= 8 bytes (block hash 2 "
+        "reaches and exceeds 32 symbols raw, with runs that collapse)",
   enc=["FuzzyHashDualData::from_bytes_with_last_index", "from_raw_form", "to_raw_form", "is_valid"])
 K("c11_dual_parser_valid_tail", "C11", M_DUAL, fn="c04_dual_capacity_bh2_short_tail", cfg="release", cap=(900, 2400), cost=400, mem=14,
   unwindset=alg_rules(n_text=42, n_verify=42) + dual_rules(n_in=42, n_rle=17), shape="BMC",
@@ -1111,3 +1116,10 @@ for (a, b) in [(3, 3), (30, 30)]:
       bound="score > 0 <=> equal or candidate; candidate <=> index windows intersect; equal block sizes (3<<%d), block hashes <= 7 symbols" % a,
       enc=["FuzzyHashCompareTarget::is_comparison_candidate(_near_eq)", "compare", "block_hash_{1,2}_index_windows"],
       assumptions=[ASSUME_SYM, "both hashes valid and normalized (spec_valid)"])
+K("c11_conversions_dirty_dest_m16", "C11", M_HASH, fn="c15_short_long_raw_m16", cfg="release", cap=(600, 2400), cost=200, mem=12, shape="inductive step",
+  bound="short<->long conversions into ARBITRARY (previously used) destinations give valid objects; block hashes <= 16",
+  enc=["to_long_form", "into_mut_long_form", "try_into_mut_short", "TryFrom"], assumptions=["source valid (spec_valid)"])
+K("c11_normalize_outputs_valid_m6", "C11", M_HASH, fn="c06_routes_short_m6", cfg="release", cap=(600, 2400), cost=200, mem=12,
+  unwindset=alg_rules(n_norm=7, n_verify=8), shape="inductive step",
+  bound="every normalization route yields a valid normalized object; block hashes <= 6",
+  enc=["normalize", "normalize_in_place", "clone_normalized", "from_raw_form"], assumptions=["source valid (spec_valid)"])
